@@ -315,8 +315,12 @@ def overwrite(ctx, obs, rule='OVERWRITE'):
                 ws = [_leaf(c.func) for s in n.body for c in ast.walk(s) if isinstance(c, ast.Call)]
                 kinds[n.test.comparators[0].value] = ws
         for ft, w in (('hdf5', 'write_dict_hdf5'), ('pkl', 'write_dict_pkl')):
-            obs.check(kinds.get(ft) == [w], rule, q, f'file_type {ft!r} reaches exactly the writer {w}',
-                      f'file_type {ft!r} reaches {kinds.get(ft)}', '', where(prog, f, f.node))
+            con_ = f'file_type {ft!r} reaches exactly the writer {w}'
+            if kinds.get(ft) is None:
+                # no `if file_type == {ft!r}:` arm in this function: the dispatch is a table / an enum / a helper - not decided
+                obs.unk(rule, q, con_, f'no arm comparing file_type with {ft!r} in {q.split(".")[-1]}', where(prog, f, f.node))
+            else:
+                obs.check(kinds.get(ft) == [w], rule, q, con_, f'file_type {ft!r} reaches {kinds.get(ft)}', '', where(prog, f, f.node))
         for w in wr:
             args = [norm(a) for a in w.node.args]
             d = w.node.args[1] if len(w.node.args) > 1 else None
